@@ -41,6 +41,9 @@ def configure(live_ids, tier, opts):
 
 UNRESERVED = string.ascii_letters + string.digits + "-._~"
 path_text = st.text(alphabet=UNRESERVED, min_size=1, max_size=8).filter(lambda s: s.strip(".") != "")
+# text that needs percent-encoding to stay inside its own path segment (drawn rarely while the finding about it is live)
+reserved_path_text = st.text(alphabet=UNRESERVED + "/?#% &=+:@", min_size=1, max_size=8).filter(
+    lambda s: s.strip(".") != "" and any(c not in UNRESERVED for c in s))
 header_text = st.text(alphabet=string.ascii_letters + string.digits + " ._-", min_size=1, max_size=10).map(str.strip).filter(bool)
 cookie_text = st.text(alphabet=string.ascii_letters + string.digits + "._-", min_size=1, max_size=10)
 
@@ -51,6 +54,8 @@ def arg_value(draw, s, loc, comps):
     if k == "ref":
         return draw(arg_value(comps[s["name"]], loc, comps))
     if k == "str":
+        if loc == "path" and draw(st.integers(0, 9 if "KF-C03-07" in _live else 1)) == 0:
+            return draw(reserved_path_text)
         return draw({"path": path_text, "header": header_text, "cookie": cookie_text}.get(loc, instances.plain_text))
     if k == "enum" and s.get("base") == "str" and loc == "path":
         ok = [v for v in s["values"] if v and all(c in UNRESERVED for c in v) and v.strip(".")]
@@ -353,7 +358,15 @@ def _expected_text_values(value, s, comps):
     return [(value, s)]
 
 
+def _given_of(call) -> dict:
+    return {(a[1], a[0]): a[2] for a in call["args"]}
+
+
 def check_request(ctx, req, op, call, comps, secured, auth, site_base):
+    if any(loc_ == "path" and isinstance(v_, str) and any(c not in UNRESERVED for c in v_) for (loc_, _n), v_ in _given_of(call).items()):
+        # such a value can leak into other segments, the query or the fragment: everything observed on this request is attributed to it
+        site_base = {**site_base, "reserved_characters_in_path_argument": True}
+        ctx.label("path_argument_with_reserved_characters")
     V = lambda clause, site, detail="": ctx.violation(clause, {**site_base, **site}, detail)  # noqa: E731
     if req["method"].upper() != op["method"].upper():
         V("request.method", {"want": op["method"]}, req["method"])
@@ -361,7 +374,7 @@ def check_request(ctx, req, op, call, comps, secured, auth, site_base):
     params = {(p["in"], p["name"]): p for p in op["params"] if not p.get("shadowed")}
     # --- path
     rx, names = http.path_regex(op["path"])
-    m = rx.match(urllib.parse.unquote(req["raw_path"].split("?")[0]))
+    m = rx.match(req["raw_path"].split("?")[0])     # slots are cut on the path as sent, each then decoded on its own
     if not m:
         V("request.path", {"why": "shape"}, f"{req['raw_path']} vs {op['path']}")
     else:
@@ -369,7 +382,7 @@ def check_request(ctx, req, op, call, comps, secured, auth, site_base):
             p = params.get(("path", nm))
             if p is None or ("path", nm) not in given:
                 continue
-            _cmp_text(V, "request.path", text, given[("path", nm)], p, comps, "path")
+            _cmp_text(V, "request.path", urllib.parse.unquote(text), given[("path", nm)], p, comps, "path")
     # --- query
     q: dict[str, list[str]] = {}
     for k, v in req["query"]:
